@@ -363,6 +363,14 @@ def c19_spec():
                 if cand:
                     _, k, stg = cand[-1]
                     bad.setdefault((k, stg), first)
+        # linker diagnostics ("compiles and links"): ld names the function in which the unresolved symbol is referenced
+        cur = None
+        for line in err.split('\n'):
+            m = re.search(r"in function `cell_(\d+)_(\w+)\(Fixture&\)'", line)
+            if m: cur = (int(m.group(1)), m.group(2))
+            elif re.search(r"in function `", line): cur = None
+            m2 = re.search(r"undefined reference to `([^']*)'", line)
+            if m2 and cur is not None: bad.setdefault(cur, 'does not link: undefined reference to ' + m2.group(1)[:200])
         return bad
 
     def run(p, tier, seed, t0):
